@@ -27,17 +27,18 @@ type nv struct {
 }
 
 type c04Rule struct {
-	exc       bool
-	pattern   string
-	party     int // 0 absent, 1 third-party, 2 ~third-party, 3 first-party, 4 ~first-party
-	types     []nv
-	domains   []nv
-	denyallow []string
-	dnstypes  []nv
-	ctags     []nv
-	clients   []nv // v is the raw client identifier
-	matchCase bool
-	docOnly   string // a document-only exception modifier ("" or e.g. "elemhide")
+	exc          bool
+	pattern      string
+	party        int // 0 absent, 1 third-party, 2 ~third-party, 3 first-party, 4 ~first-party
+	types        []nv
+	domains      []nv
+	denyallow    []string
+	dnstypes     []nv
+	ctags        []nv
+	clients      []nv // v is the raw client identifier
+	matchCase    bool
+	notMatchCase bool   // "~match-case" written out: same as leaving it out
+	docOnly      string // a document-only exception modifier ("" or e.g. "elemhide")
 }
 
 // sruleToC04 reads the modifiers of a structurally given alphabet rule (the
@@ -71,6 +72,8 @@ func sruleToC04(s srule) (r c04Rule, ok bool) {
 			r.party = 4
 		case "match-case":
 			r.matchCase = true
+		case "~match-case":
+			r.notMatchCase = true
 		case "domain":
 			r.domains = split(val)
 		case "denyallow":
@@ -168,6 +171,9 @@ func (r c04Rule) text() string {
 	}
 	if r.matchCase {
 		o = append(o, "match-case")
+	}
+	if r.notMatchCase {
+		o = append(o, "~match-case")
 	}
 	if r.docOnly != "" {
 		o = append(o, r.docOnly)
@@ -440,7 +446,7 @@ func c04Requests() (qs []c04Req) {
 		}
 	}
 	names := []string{"", "Mom", "Frank's laptop", "a,b", "x|y", "Dad"}
-	ips := []string{"", "127.0.0.1", "192.168.0.7", "fe80::1", "10.0.0.1", "fd00::17"}
+	ips := []string{"", "127.0.0.1", "192.168.0.7", "fe80::1", "10.0.0.1", "fd00::17", "::ffff:192.168.0.7", "::ffff:10.0.0.1"}
 	tagsets := [][]string{nil, {"pc"}, {"phone"}, {"pc", "phone"}, {"printer", "tv"}}
 	for _, h := range []string{"example.org", "ads.sub.example.org", "1.2.3.4"} {
 		for _, dt := range []uint16{1, 28, 5, 65, 257} {
@@ -520,7 +526,7 @@ func c04Slots() []c04Slot {
 	return []c04Slot{
 		{"domain", []nv{{"example.org", false}, {"sub.example.org", true}, {"example.com", false}, {"google.*", false}, {"www.google.*", true}, {"co.uk", false}, {"example.*", false}, {"example.local", false}, {"shop.example.com", false}, {"example.com", true}},
 			func(r *c04Rule, vs []nv) { r.domains = vs }},
-		{"client", []nv{{"127.0.0.1", false}, {"192.168.0.0/24", true}, {"fe80::/10", false}, {"Frank's laptop", false}, {"a,b", false}, {"Mom", false}, {"Dad", true}, {"x|y", true}, {"192.168.0.0/16", false}, {"10.0.0.1", false}, {"Mom", true}, {"fd00::/8", false}},
+		{"client", []nv{{"127.0.0.1", false}, {"192.168.0.0/24", true}, {"fe80::/10", false}, {"Frank's laptop", false}, {"a,b", false}, {"Mom", false}, {"Dad", true}, {"x|y", true}, {"192.168.0.0/16", false}, {"10.0.0.1", false}, {"Mom", true}, {"fd00::/8", false}, {"::ffff:192.168.0.7", false}, {"::ffff:10.0.0.0/104", true}},
 			func(r *c04Rule, vs []nv) { r.clients = vs }},
 		{"ctag", []nv{{"pc", false}, {"phone", true}, {"printer", false}, {"tv", true}, {"pc", true}, {"phone", false}},
 			func(r *c04Rule, vs []nv) { r.ctags = vs }},
@@ -615,6 +621,8 @@ func c04Run(c *Ctx, qs []c04Req, only string) {
 		"/example.org.", "/exa_mple.org.", "||example.org^", "|example.org|", "example.org|", "ws://example.org", "|ads.sub", "EXAMPLE.org^"} {
 		jobs = append(jobs, job{c04Rule{pattern: pat, denyallow: []string{"x.com"}}, "pattern-target"})
 		jobs = append(jobs, job{c04Rule{pattern: pat, matchCase: true, dnstypes: []nv{{"TXT", true}}}, "pattern-target"})
+		jobs = append(jobs, job{c04Rule{pattern: pat, notMatchCase: true}, "pattern-target"})
+		jobs = append(jobs, job{c04Rule{pattern: pat, notMatchCase: true, party: 2, types: []nv{{"image", true}}}, "pattern-target"})
 	}
 	// content-type layer: every content-type modifier alone, negated, and every
 	// ordered pair in the three sign combinations, against a request of every type
